@@ -1229,3 +1229,160 @@ func genQuoteFn(repo, out string) {
 	}
 	writeIfChanged(filepath.Join(out, "QuoteFn.v"), b.String())
 }
+
+// ---- arch.MtreeEntry.WriteTo: one format string per kind of entry ----
+func genMtreeLine(repo, out string) {
+	consts := stringConsts(parseFile(filepath.Join(repo, "files/files.go")))
+	f := parseFile(filepath.Join(repo, "arch/arch.go"))
+	c := &trCtx{}
+	lines := map[string]string{}
+	labelsOf := map[string][]string{}
+	var fd *ast.FuncDecl
+	for _, d := range f.Decls {
+		if x, ok := d.(*ast.FuncDecl); ok && x.Name.Name == "WriteTo" && x.Recv != nil && x.Body != nil {
+			fd = x
+		}
+	}
+	fieldOfEntry := map[string]string{"Time": "me_time", "Mode": "me_mode", "Size": "me_size", "MD5": "me_md5", "SHA256": "me_sha256"}
+	func() {
+		if fd == nil || len(fd.Body.List) != 1 {
+			c.fail("no method WriteTo whose body is one switch")
+			return
+		}
+		recv := fd.Recv.List[0].Names[0].Name
+		sw, ok := fd.Body.List[0].(*ast.SwitchStmt)
+		if !ok {
+			c.fail("no method WriteTo whose body is one switch")
+			return
+		}
+		if se, ok := sw.Tag.(*ast.SelectorExpr); !ok || se.Sel.Name != "Type" {
+			c.fail("the switch is not over the entry's type")
+			return
+		}
+		for _, st := range sw.Body.List {
+			cc := st.(*ast.CaseClause)
+			var labels []string
+			for _, e := range cc.List {
+				if se, ok := e.(*ast.SelectorExpr); ok {
+					if v, ok := consts[se.Sel.Name]; ok {
+						labels = append(labels, v)
+						continue
+					}
+				}
+				c.fail("case label that is not a type constant of files")
+				return
+			}
+			kind := "MFile"
+			switch strings.Join(labels, ",") {
+			case "dir,implicit dir", "implicit dir,dir":
+				kind = "MDir"
+			case "symlink":
+				kind = "MLink"
+			case "":
+				kind = "MFile"
+			default:
+				c.fail("cases are not {dir, implicit dir}, {symlink}, default")
+				return
+			}
+			labelsOf[kind] = labels
+			// the first statement: n, err := fmt.Fprintf(w, FORMAT, args...)
+			var call *ast.CallExpr
+			if len(cc.Body) > 0 {
+				if as, ok := cc.Body[0].(*ast.AssignStmt); ok && len(as.Rhs) == 1 {
+					call, _ = as.Rhs[0].(*ast.CallExpr)
+				}
+			}
+			if call == nil || len(call.Args) < 2 {
+				c.fail("a case that does not start with fmt.Fprintf")
+				return
+			}
+			format, ok := strLit(call.Args[1])
+			if !ok {
+				c.fail("format that is not a literal")
+				return
+			}
+			args := call.Args[2:]
+			var parts []string
+			lit, ai := "", 0
+			for k := 0; k < len(format); k++ {
+				if format[k] != '%' {
+					lit += string(format[k])
+					continue
+				}
+				if k+1 >= len(format) || ai >= len(args) {
+					c.fail("format with a dangling verb")
+					return
+				}
+				verb := format[k+1]
+				k++
+				if lit != "" {
+					parts = append(parts, coqStr(lit))
+					lit = ""
+				}
+				a := args[ai]
+				ai++
+				val := ""
+				if ce, ok := a.(*ast.CallExpr); ok && len(ce.Args) == 1 && verb == 's' {
+					// mtreeQuote(me.Destination | me.LinkSource)
+					if id, ok := ce.Fun.(*ast.Ident); ok && id.Name == "mtreeQuote" {
+						if se, ok := ce.Args[0].(*ast.SelectorExpr); ok {
+							if x, ok := se.X.(*ast.Ident); ok && x.Name == recv {
+								switch se.Sel.Name {
+								case "Destination":
+									val = "src_mtreeQuote (me_path e)"
+								case "LinkSource":
+									val = "src_mtreeQuote (me_link e)"
+								}
+							}
+						}
+					}
+				} else if se, ok := a.(*ast.SelectorExpr); ok {
+					if x, ok := se.X.(*ast.Ident); ok && x.Name == recv {
+						if fn, ok := fieldOfEntry[se.Sel.Name]; ok {
+							switch {
+							case verb == 'd' && (fn == "me_time" || fn == "me_size"):
+								val = "decN (" + fn + " e)"
+							case verb == 'o' && fn == "me_mode":
+								val = "octN (" + fn + " e)"
+							case verb == 'x' && (fn == "me_md5" || fn == "me_sha256"):
+								val = fn + " e" // the model's field is the lower-case hex text of the digest
+							}
+						}
+					}
+				}
+				if val == "" {
+					c.fail("an argument or verb outside the subset in %q", format)
+					return
+				}
+				parts = append(parts, val)
+			}
+			if lit != "" {
+				parts = append(parts, coqStr(lit))
+			}
+			if ai != len(args) {
+				c.fail("more arguments than verbs")
+				return
+			}
+			// right-nested
+			expr := parts[len(parts)-1]
+			for k := len(parts) - 2; k >= 0; k-- {
+				expr = parts[k] + " ++ (" + expr + ")"
+			}
+			lines[kind] = expr
+		}
+		for _, k := range []string{"MDir", "MLink", "MFile"} {
+			if lines[k] == "" {
+				c.fail("no case for %s", k)
+			}
+		}
+	}()
+	var b strings.Builder
+	b.WriteString("(* GENERATED from /repo (arch/arch.go: MtreeEntry.WriteTo) on every run by translators/strfn.go (genMtreeLine) - do not edit *)\n")
+	b.WriteString("From Coq Require Import List String Bool NArith.\nFrom Coq Require Import Strings.Byte.\nFrom NfpmV Require Import Lib.Bytes Model.Content Model.Tar Model.Mtree.\nFrom NfpmV Require Import Gen.QuoteFn.\nImport ListNotations.\nOpen Scope list_scope.\n\n")
+	if c.err != "" {
+		fmt.Fprintf(&b, "(* UNTRANSLATABLE - %s *)\nDefinition src_mtree_line (e : mentry) : str := [].\nDefinition src_mtree_line_translated : bool := false.\n", c.err)
+	} else {
+		fmt.Fprintf(&b, "(* cases: %v -> MDir, %v -> MLink, default -> MFile *)\nDefinition src_mtree_line (e : mentry) : str :=\n  match me_kind e with\n  | MDir => %s\n  | MLink => %s\n  | MFile => %s\n  end.\nDefinition src_mtree_line_translated : bool := true.\n", labelsOf["MDir"], labelsOf["MLink"], lines["MDir"], lines["MLink"], lines["MFile"])
+	}
+	writeIfChanged(filepath.Join(out, "MtreeLine.v"), b.String())
+}
